@@ -214,3 +214,42 @@ def read_kernel(source: str, kname: str):
     ast = c_parser.CParser().parse(PRE + text)
     fn = ast.ext[-1]
     return c_stmt(fn.body)[1]
+
+
+def function_ast(source: str, kname: str):
+    from pycparser import c_parser
+    m = re.search(r"void tabulate_tensor_" + re.escape(kname) + r"\(", source)
+    if not m:
+        raise CReadError("kernel not found in source")
+    i = source.index("{", m.end())
+    depth = 0
+    j = i
+    while True:
+        ch = source[j]
+        if ch == "{":
+            depth += 1
+        elif ch == "}":
+            depth -= 1
+            if depth == 0:
+                break
+        j += 1
+    text = re.sub(r"//[^\n]*", "", source[m.start():j + 1])
+    return c_parser.CParser().parse(PRE + text).ext[-1]
+
+
+def mutable_statics(source: str, kname: str):
+    """names declared with static storage duration but without const inside the kernel:
+    state that survives a call and is shared between threads."""
+    from pycparser import c_ast as A
+    fn = function_ast(source, kname)
+    bad = []
+
+    class V(A.NodeVisitor):
+        def visit_Decl(self, n):
+            if "static" in (n.storage or []):
+                _, quals = _ctype(n.type)
+                if "const" not in quals:
+                    bad.append(n.name)
+            self.generic_visit(n)
+    V().visit(fn.body)
+    return bad
